@@ -82,4 +82,32 @@ CLAIMED = {
              "canonical text + sampling; aliasing is observed by the harness overwriting every passed/returned slice. "
              "One genuine defect found by this check and repaired (fix: db91167).",
         tech="Lean 4 refinement proof (MemFs) + regenerated facts + differential correspondence (MemFs, DirFs, wrappers)"),
+    "C10": dict(
+        text="Machine-checked proof (Lean 4 kernel) of a generic theorem: in a system of any number of threads that run "
+             "operations as acquire(R|W); micro-steps; release under a reader/writer lock, where readers do not modify "
+             "the shared state, every reachable state under every schedule has a linearisation (the order of lock "
+             "acquisitions) in which each completed operation returned what it returns sequentially and real-time order "
+             "is respected. Instantiated with the MemDisk protocol (block copies split in two micro-steps, so torn blocks "
+             "are expressible) whose lock modes are read from lock summaries regenerated from mem.go; its sequential "
+             "specification is proved equal to C09's MemDisk model. Size is lock-free and reads a field assigned only by "
+             "the constructor (regenerated fact). FileDisk: commutation of writes to distinct addresses in the OS-file "
+             "model; kernel atomicity assumed. Stress correspondence: porcupine + torn-block detector on MemDisk, "
+             "the property's own clauses on FileDisk, race detector on both.",
+        ref="DESIGN.md §5.2, §6 C10",
+        note="Partial where the truth is in the runtime: the Go scheduler, the memory model (data races) and the kernel "
+             "are not modelled; sync.RWMutex semantics is the Step relation's guard. A torn pread/pwrite overlap on "
+             "FileDisk is outside the property and is not reported.",
+        tech="Lean 4 proof (lock invariant over all schedules, linearisation = acquisition order) + lock summaries (T-gen) + porcupine/race stress"),
+    "C14": dict(
+        text="The generic lock theorem (see C10) instantiated with the MemFs protocol: every exported method is a writer "
+             "of the mutex according to the lock summaries regenerated from mem.go (Lock first, deferred Unlock, helpers "
+             "lock-free and called from locked methods), so every concurrent history of MemFs is linearizable with the "
+             "sequential MemFs model as specification, which refines the reference model (C12: exclusive Create, fresh "
+             "descriptors, atomic appends). DirFs: kernel atomicity of single system calls is assumed. Stress "
+             "correspondence: porcupine against the reference model for MemFs and DirFs (incl. tightly raced Creates of "
+             "one name), race detector.",
+        ref="DESIGN.md §5.2, §6 C14",
+        note="Partial where the truth is in the runtime: scheduler, memory model and kernel are not modelled; List and "
+             "AtomicCreate on DirFs are multi-call by design (List is only issued on a quiet directory).",
+        tech="Lean 4 proof (generic lock theorem instance) + lock summaries (T-gen) + porcupine/race stress"),
 }
